@@ -391,17 +391,25 @@ class QueryPlanner:
         # split to select from api database
         #     keep only limit and where
         #     the rest goes to outer select
+        limit = query.limit
+        if query.offset is not None and limit is not None:
+            # OFFSET is applied by the outer select: it needs the first (offset + limit) rows, and keeps its own LIMIT
+            if isinstance(limit.value, int) and isinstance(query.offset.value, int):
+                limit = Constant(limit.value + query.offset.value)
+            else:
+                limit = None
         query2 = Select(
             targets=query.targets,
             from_table=query.from_table,
             where=query.where,
             order_by=query.order_by,
-            limit=query.limit,
+            limit=limit,
         )
         prev_step = self.plan_integration_select(query2)
 
         # clear limit and where
-        query.limit = None
+        if query.offset is None:
+            query.limit = None
         query.where = None
         return self.plan_sub_select(query, prev_step)
 
